@@ -48,7 +48,10 @@ def raw_blocks(rng, n):
             ops.append(o)
             if rng.random() < 0.35:
                 bpi = rng.randrange(n0)
-                ops.append(histgen.gen_raw_block(rng, pools, bpi, bps[bpi]))
+                raw = histgen.gen_raw_block(rng, pools, bpi, bps[bpi])
+                if bpi == 0 and rng.random() < 0.3:
+                    raw["noidx"] = True
+                ops.append(raw)
         ops.append(histgen.gen_raw_block(rng, pools, 0, bps[0]))
         h["ops"] = ops
         hs.append(h)
